@@ -175,11 +175,18 @@ theorem doc_parse (τ : Trivia) (hτ : ∀ q, Ws (τ q)) (sh : Nat → Bool) (do
         (fun x _ s q pr hgd => hgd.1.rule) _ pss hgood
     have hclean : CleanL pss := goodItems_clean (rDef τ sh) false false _ (a :: r)
       (fun x _ s q pr hgd => hgd.1.clean) _ pss hgood
-    refine ⟨_, by simp [Peg.parse, runTr, hp], ?_, ?_⟩
+    refine ⟨.mk R.ExecutableDocument 0 e
+      ([] ++ (pss ++ [Pair.mk R.EOI (g.length + tI.length) (g.length + tI.length) []])),
+      by simp [Peg.parse, runTr, hp], ?_, ?_⟩
     · refine cleanP_of (by decide) (by decide) ?_
       simp only [List.nil_append, cleanL_append, cleanL_cons, cleanL_nil, and_true]
       exact ⟨hclean, cleanP_of (by decide) (by decide) trivial⟩
-    · simp only [buildOperationDocument, Pair.rule, if_true, Pair.children]
+    · simp only [buildOperationDocument]
+      rw [if_pos (show (Pair.mk R.ExecutableDocument 0 e ([] ++ (pss ++ [Pair.mk R.EOI (g.length + tI.length)
+        (g.length + tI.length) []]))).rule = R.ExecutableDocument from rfl)]
+      rw [show (Pair.mk R.ExecutableDocument 0 e ([] ++ (pss ++ [Pair.mk R.EOI (g.length + tI.length)
+        (g.length + tI.length) []]))).children = [] ++ (pss ++ [Pair.mk R.EOI (g.length + tI.length)
+        (g.length + tI.length) []]) from rfl]
       rw [filter_defs pss _ hrule rfl]
       have := goodItems_mapM (rDef τ sh) false false (DefGood inp (rDef τ sh) (wpDef τ inp sh))
         (buildExecutableDefinition (Ctx.spec inp) (4 * inp.length + 64)) (wpDef τ inp sh) (4 * inp.length + 64) (a :: r)
